@@ -180,9 +180,13 @@ class TapeRecorder(object):
         :param data: Data to record (it needs to be serializable)
         :type data: Any
         """
-        self._assert_recording()
-        _logger.debug(u'Recording data for recording id {} under key {}'.format(self._active_recording.id, key))
-        self._active_recording[key] = data
+        # The recording may have been discarded (or completed) while an interception was still in flight, e.g. by the
+        # intercepted function itself or by another thread, in that case there is nothing to record the data to
+        recording = self._active_recording
+        if recording is None:
+            return
+        _logger.debug(u'Recording data for recording id {} under key {}'.format(recording.id, key))
+        recording[key] = data
 
     def _assert_recording(self):
         """
@@ -858,7 +862,8 @@ class TapeRecorder(object):
                 self.discard_recording()
                 return result
 
-            if self._active_recording_parameters.copy_data_on_intercepion:
+            recording_parameters = self._active_recording_parameters
+            if recording_parameters is not None and recording_parameters.copy_data_on_intercepion:
                 try:
                     recorded_result = pickle_copy(recorded_result)
                 except Exception as ex:
@@ -912,7 +917,8 @@ class TapeRecorder(object):
         :return: List of output objects
         :rtype: list of Output
         """
-        all_output_keys = [key for key in recording.get_all_keys() if key.startswith('output:') and
+        # Take a snapshot of the keys, an interception that is still in flight on another thread may add a key
+        all_output_keys = [key for key in list(recording.get_all_keys()) if key.startswith('output:') and
                            not key.endswith('result')]
         return [Output(key, (recording.get_data if not direct_access else recording.get_data_direct)(key))
                 for key in all_output_keys]
